@@ -34,8 +34,12 @@ def main():
             run(['git', '-C', '/repo', 'checkout', '--', '.'])
         rows.append((i, meta['property'], '; '.join(res), meta.get('needs', '')))
         print(i, '|', '; '.join(res), flush=True)
+    jp = os.path.join(HERE, 'seeded', 'RESULTS.json')
+    allr = json.load(open(jp)) if os.path.exists(jp) else {}
+    for r in rows: allr[r[0]] = dict(property=r[1], quick=r[2], needs=str(r[3]))
+    json.dump(allr, open(jp, 'w'), indent=1, sort_keys=True)
     with open(os.path.join(HERE, 'seeded', 'RESULTS.md'), 'w') as f:
-        f.write('| seeded change | property | quick checks | needs to manifest |\n|---|---|---|---|\n')
-        for r in rows: f.write('| %s | %s | %s | %s |\n' % (r[0], r[1], r[2], str(r[3]).replace('|', '/').replace('\n', ' ')[:300]))
+        f.write('Detection table of the seeded changes (written by tools/run_seeded.py; quick tier, seed 1).\n\n| seeded change | property | quick checks | needs to manifest (from the seeding agent\'s notes) |\n|---|---|---|---|\n')
+        for k in sorted(allr): f.write('| %s | %s | %s | %s |\n' % (k, allr[k]['property'], allr[k]['quick'], allr[k]['needs'].replace('|', '/').replace('\n', ' ')[:260]))
     return 0
 sys.exit(main())
